@@ -228,6 +228,29 @@ func checkC16(r *Run) {
 			}
 		}
 	})
+	// the registered SIP header field names and methods (IANA registry, plus common extensions): every one that is
+	// not in the statement's list is 'other', in every spelling used on the wire (as registered, lower, upper)
+	real := []string{"Accept", "Accept-Contact", "Accept-Encoding", "Accept-Language", "Accept-Resource-Priority", "Alert-Info", "Allow", "Allow-Events", "Answer-Mode", "Authentication-Info",
+		"Authorization", "Call-Info", "Cellular-Network-Info", "Contact", "Content-Disposition", "Content-Encoding", "Content-ID", "Content-Language", "Content-Length", "Content-Type", "CSeq", "Date",
+		"Encryption", "Error-Info", "Event", "Expires", "Feature-Caps", "Flow-Timer", "From", "Geolocation", "Geolocation-Error", "Geolocation-Routing", "Hide", "History-Info", "Identity", "Identity-Info",
+		"Info-Package", "In-Reply-To", "Join", "Max-Breadth", "Max-Forwards", "MIME-Version", "Min-Expires", "Min-SE", "Organization", "Origination-Id", "P-Access-Network-Info", "P-Answer-State",
+		"P-Asserted-Identity", "P-Asserted-Service", "P-Associated-URI", "P-Called-Party-ID", "P-Charge-Info", "P-Charging-Function-Addresses", "P-Charging-Vector", "P-DCS-Billing-Info", "P-DCS-LAES",
+		"P-DCS-OSPS", "P-DCS-Redirect", "P-DCS-Trace-Party-ID", "P-Early-Media", "P-Media-Authorization", "P-Preferred-Identity", "P-Preferred-Service", "P-Private-Network-Indication", "P-Profile-Key",
+		"P-Refused-URI-List", "P-Served-User", "P-User-Database", "P-Visited-Network-ID", "Path", "Permission-Missing", "Policy-Contact", "Policy-ID", "Priority", "Priority-Share", "Priv-Answer-Mode",
+		"Privacy", "Proxy-Authenticate", "Proxy-Authorization", "Proxy-Require", "RAck", "Reason", "Reason-Phrase", "Record-Route", "Recv-Info", "Refer-Events-At", "Refer-Sub", "Refer-To", "Referred-By",
+		"Reject-Contact", "Relayed-Charge", "Replaces", "Reply-To", "Request-Disposition", "Require", "Resource-Priority", "Resource-Share", "Response-Key", "Response-Source", "Restoration-Info", "Retry-After",
+		"Route", "RSeq", "Security-Client", "Security-Server", "Security-Verify", "Server", "Service-Interact-Info", "Service-Route", "Session-Expires", "Session-ID", "SIP-ETag", "SIP-If-Match", "Subject",
+		"Subscription-State", "Supported", "Suppress-If-Match", "Target-Dialog", "Timestamp", "To", "Trigger-Consent", "Unsupported", "User-Agent", "User-to-User", "Via", "Warning", "WWW-Authenticate",
+		"X-Forwarded-For", "Diversion", "Remote-Party-ID", "P-Asserted-Identities", "Contacts", "Routes", "Vias", "CSeqs", "Call-IDs", "Froms", "Content-Lengths", "Max-Forward", "User-Agents", "Record-Routes",
+		// compact forms of other headers (RFC 3261 and extensions)
+		"a", "b", "c", "d", "e", "j", "k", "n", "o", "r", "s", "u", "x", "y",
+		// methods (none is a header name; header names are not methods)
+		"INVITE", "ACK", "BYE", "CANCEL", "OPTIONS", "REGISTER", "PRACK", "SUBSCRIBE", "NOTIFY", "PUBLISH", "INFO", "REFER", "MESSAGE", "UPDATE"}
+	parallelFor(r, len(real), func(c *enumCtx, i int) {
+		for _, n := range [][]byte{[]byte(real[i]), bytes.ToLower([]byte(real[i])), bytes.ToUpper([]byte(real[i]))} {
+			run(c, n, true)
+		}
+	})
 	// method <-> name round trip
 	for m := sipsp.MUndef + 1; m < sipsp.MOther; m++ {
 		if got := sipsp.GetMethodNo(m.Name()); got != m {
